@@ -7,6 +7,7 @@ import (
 	"os/exec"
 	"path/filepath"
 	"regexp"
+	"runtime/debug"
 	"sort"
 	"strings"
 
@@ -143,10 +144,18 @@ func selfTest(root, onlyProp string, verbose bool) (ran, bad int, lines []string
 		eng.ResetLockCache()
 		rules.ResetCaches()
 		mp, err := base.Mutate(ov)
+		if err != nil && (strings.Contains(err.Error(), "not loaded") || strings.Contains(err.Error(), "undefined:")) {
+			mp, err = ir.Load(ir.Options{Dir: *flagRepo, Overlay: ov})
+		}
 		if err != nil {
 			lines = append(lines, fmt.Sprintf("SELFTEST %s: skipped, patched tree does not type-check on the current tree: %v", name, err))
 			ran--
 			continue
+		}
+		if !*flagNoNorm {
+			if nr, nerr := normalize(mp); nerr == nil {
+				mp = nr.Prog
+			}
 		}
 		var hit []string
 		for _, pid := range props {
@@ -212,9 +221,22 @@ func tryPatch(root, patch, props string) int {
 		return 2
 	}
 	mp, err := base.Mutate(ov)
+	if err != nil && (strings.Contains(err.Error(), "not loaded") || strings.Contains(err.Error(), "undefined:")) {
+		mp, err = ir.Load(ir.Options{Dir: *flagRepo, Overlay: ov})
+	}
 	if err != nil {
 		fmt.Println("patched tree does not type-check:", err)
 		return 2
+	}
+	if !*flagNoNorm {
+		if nr, nerr := normalize(mp); nerr == nil {
+			mp = nr.Prog
+			for _, n := range nr.Notes {
+				fmt.Println("NOTE " + n)
+			}
+		} else {
+			fmt.Println("NOTE normalisation skipped:", nerr)
+		}
 	}
 	ids := rules.IDs()
 	if props != "" && props != "all" {
@@ -235,6 +257,9 @@ func tryPatch(root, patch, props string) int {
 					if r := recover(); r != nil {
 						c.Rule("PANIC", "engine")
 						c.Undecided("analyser panic", "-", fmt.Sprint(r))
+						if os.Getenv("LBCHECK_DEBUG") != "" {
+							fmt.Println(string(debug.Stack()))
+						}
 					}
 				}()
 				pr.Run(c)
